@@ -184,12 +184,92 @@ fn check_tree(ev: &mut Ev, root: &Path, t: &Tree) -> CaseResult {
         }
     }
     ev.add("packages_yielded", seen.len() as u64);
+    check_adaptors(ev, root, t)?;
     let multi = t.dirs.iter().filter(|d| d.complete() && om::count_dashes(&d.name) >= 2).count();
     if multi > 0 || t.dirs.iter().any(|d| !d.complete()) {
         let names: Vec<&[u8]> = t.dirs.iter().map(|d| d.name.as_bytes()).collect();
         ev.nontrivial(hash_strs(&names) ^ t.dirs.iter().map(|d| d.missing_mask as u64).sum::<u64>());
     }
     Ok(())
+}
+
+/// "Each once" also for a caller that does not walk the iterator with a plain
+/// `for`: count, last, nth, skip, step_by and size_hint of a fresh iterator
+/// over the same directory must agree with the N installed packages (the
+/// Iterator contract; std's Skip and StepBy are built on nth).
+fn check_adaptors(ev: &mut Ev, root: &Path, t: &Tree) -> CaseResult {
+    let complete: Vec<&str> = t.dirs.iter().filter(|d| d.complete()).map(|d| d.name.as_str()).collect();
+    let n = complete.len();
+    let open = || PkgDB::open(root).map_err(|e| crate::fw::Fail::from(format!("PkgDB::open failed on a directory: {e}")));
+    let cap = n + t.dirs.len() * 4 + t.stray.len() * 4 + 16;
+    ev.evals(4);
+    ev.count("adaptors/trees");
+    let (lo, hi) = open()?.size_hint();
+    if lo > n || hi.map_or(false, |h| h < n) {
+        return Err(format!("size_hint() = ({lo}, {hi:?}) but the database holds {n} packages").into());
+    }
+    let c = open()?.take(cap).count();
+    if c != n {
+        return Err(format!("count() = {c}, the database holds {n} packages").into());
+    }
+    match open()?.take(cap).last() {
+        None if n == 0 => {}
+        Some(Ok(p)) if complete.contains(&p.pkgname().as_str()) => {}
+        other => {
+            return Err(format!(
+                "last() = {:?}, the database holds {n} packages",
+                other.map(|r| r.map(|p| p.pkgname().clone()).map_err(|e| e.to_string()))
+            )
+            .into())
+        }
+    }
+    let mut ks: Vec<usize> = vec![0, 1, 2, n.saturating_sub(1), n, n + 1];
+    ks.sort();
+    ks.dedup();
+    for k in ks {
+        ev.evals(3);
+        match open()?.nth(k) {
+            None if k >= n => {}
+            Some(Ok(p)) if k < n && complete.contains(&p.pkgname().as_str()) => {}
+            other => {
+                return Err(format!(
+                    "nth({k}) = {:?}, the database holds {n} packages",
+                    other.map(|r| r.map(|p| p.pkgname().clone()).map_err(|e| e.to_string()))
+                )
+                .into())
+            }
+        }
+        let rest = open()?.skip(k).take(cap).count();
+        if rest != n.saturating_sub(k) {
+            return Err(format!("skip({k}).count() = {rest}, the database holds {n} packages").into());
+        }
+        let step = k + 1;
+        let got = open()?.step_by(step).take(cap).count();
+        if got != (n + step - 1) / step {
+            return Err(format!("step_by({step}).count() = {got}, the database holds {n} packages").into());
+        }
+    }
+    Ok(())
+}
+
+/// A database directory that is large in entries, not in packages: `strays`
+/// plain files and `incomplete` directories around three installed packages.
+fn big_tree(strays: usize, incomplete: usize) -> Tree {
+    let mk = |name: String, mask: u8| {
+        let mut files: [Option<String>; 14] = Default::default();
+        for (bit, &m) in MANDATORY.iter().enumerate() {
+            if mask & (1 << bit) == 0 {
+                files[m] = Some(format!("{name} {}\n", META_FILES[m]));
+            }
+        }
+        gm::PkgDir { name, files, extra: vec![], missing_mask: mask }
+    };
+    let mut dirs = vec![mk("first-1.0".into(), 0), mk("middle-pkg-2.0nb1".into(), 0), mk("zlast-3".into(), 0)];
+    for i in 0..incomplete {
+        dirs.push(mk(format!("partial{i}-0.{i}"), 1 + (i % 7) as u8));
+    }
+    let stray = (0..strays).map(|i| (format!("stray{i:06}"), String::new())).collect();
+    Tree { dirs, stray }
 }
 
 fn check_tables(ev: &mut Ev, mutated: &[String]) -> CaseResult {
@@ -313,6 +393,8 @@ pub fn run(cx: &mut Cx) {
     }
     for k in [
         "trees/empty_database",
+        "adaptors/trees",
+        "trees/big",
         "plain_files",
         "open/missing_path",
         "open/plain_file",
@@ -339,6 +421,30 @@ pub fn run(cx: &mut Cx) {
             build_tree(&root, &t);
         }
         cx.check(|| describe_tree(&t), |ev| check_tree(ev, &root, &t));
+        if will_run {
+            let _ = std::fs::remove_dir_all(&root);
+        }
+    }
+
+    // (a2) one database with very many non-package entries (a walk whose
+    // stack or time grows with the number of skipped entries shows here)
+    if cx.mine(0) {
+        let (strays, incomplete) = cx.pick_tier((300usize, 20usize), (6_000, 300), (40_000, 600), (150_000, 3_000));
+        let t = big_tree(strays, incomplete);
+        let root = scratch.join("db-big");
+        let will_run = cx.replay.map_or(true, |target| target == cx.idx + 1) && !cx.describe_only;
+        if will_run {
+            build_tree(&root, &t);
+        }
+        cx.set_budget(1 << 26, 1 << 34);
+        cx.check(
+            || format!("big database: 3 packages, {incomplete} incomplete directories, {strays} plain files"),
+            |ev| {
+                ev.count("trees/big");
+                check_tree(ev, &root, &t)
+            },
+        );
+        cx.default_budget();
         if will_run {
             let _ = std::fs::remove_dir_all(&root);
         }
